@@ -17,4 +17,9 @@ CONTROLS = [
     dict(name="ground_truth normalises the truth file in passing",
          edits=[(F, "    original_node = find_in_ast(search, true_ast)\n    gold_ir", "    with open(truth_file, \"wt\") as f:\n        f.write(cdd.shared.source_transformer.to_code(true_ast))\n    original_node = find_in_ast(search, true_ast)\n    gold_ir")],
          expect=r"ground_truth/truth-file-opened-read-only"),
+    dict(name="BENIGN: the difference test is spelled `cmp_ast(...) is False`", benign=True,
+         edits=[(F, "    if not cmp_ast(original_node, replacement_node):", "    if cmp_ast(original_node, replacement_node) is False:")]),
+    dict(name="BENIGN: ground_truth collects the per-file effects with a for loop instead of map", benign=True,
+         edits=[(F, "        effect.update(\n            map(\n                lambda filename: _conform_filename(\n                    filename=filename,", "        for filename in filenames:\n          effect.update(\n            (\n                _conform_filename(\n                    filename=filename,"),
+                (F, "                    type_wanted=type_wanted,\n                ),\n                filenames,\n            )\n        )\n", "                    type_wanted=type_wanted,\n                ),\n            )\n          )\n")]),
 ]
